@@ -303,6 +303,7 @@ def _run_cases(rec, mdl, prog, name, cases, s_pad, dt, p, M, eigen_based, seed):
             ads["batched"] = tuple(x[i] for x in adB)
             res["batched"] = _compare(ads["batched"], fdB, M)
         fd1 = None
+        alt = None
         need1 = any((not r["ok1"].all() and not c.excl1) or (not r["ok2"].all() and not c.excl2) or
                     not (r["fd_reliable1"] and r["fd_reliable2"]) for r in res.values())
         fd_used = {"single": fdB, "batched": fdB}
@@ -318,6 +319,8 @@ def _run_cases(rec, mdl, prog, name, cases, s_pad, dt, p, M, eigen_based, seed):
                     rec.branch("protocol:batched stencil evaluation differs from single-call stencil evaluation")
                 res["single"] = rs
                 fd_used["single"] = fd1
+                if "batched" in res:
+                    alt = _compare(ads["batched"], fd1, M)          # batched autodiff against the single-call stencil
             except Exception as e:  # noqa
                 _violation(rec, "%s|single|%s" % (name, _libkey(e)), c.prefix + ";single", {"error": repr(e)[:600]})
                 continue
@@ -348,6 +351,13 @@ def _run_cases(rec, mdl, prog, name, cases, s_pad, dt, p, M, eigen_based, seed):
                         rec.branch("excluded:%s:%s" % (oname, excl))
                         continue
                     reliable = (rS if mode == "single" else r)["fd_reliable%d" % order] and rS["fd_reliable%d" % order]
+                    if mode == "batched" and alt is not None and not (ok and reliable) and rS["fd_reliable%d" % order]:
+                        ok_alt = bool(alt["ok1"][k]) if order == 1 else bool(alt["ok2"][a, b])
+                        if ok_alt and ok:
+                            # the entry agrees with both stencil evaluations; only the batched stencil's self-check failed
+                            rec.branch("protocol:batched entry judged against the single-call stencil")
+                            err, tol = (alt["e1"][k], alt["tol1"]) if order == 1 else (alt["e2"][a, b], alt["tol2"])
+                            reliable = True
                     if ok and reliable:
                         rec.track_max("%s derivative|%s|%s|error/tolerance" % (oname, mode, "repeated" if near else "distinct"),
                                       err / tol)
